@@ -26,6 +26,8 @@ R16.h  no function of these modules modifies the object of a mutable default
        of a call must not depend on earlier calls.
 R16.i  no for-loop variable of these modules is read after its loop (a statement
        left one indentation level too shallow sees only the last element).
+R16.j  no closure created in a loop of these modules keeps the loop variable by
+       reference (late binding) - every kept closure would see the last value.
 """
 
 from __future__ import annotations
@@ -52,6 +54,7 @@ MANIFEST = {
         "critical-path length of the solved graph."
         " Also decided: no function of these modules accumulates into a mutable default argument."
         " Also decided: no for-loop variable of these modules is read after its loop (statement left one indentation level too shallow)."
+        " Also decided: no closure created in a loop keeps the loop variable by reference (late binding)."
     ),
     "note": "networkx's DiGraph semantics (add_edge overwrites attributes) are trusted.",
     "technique": "call-pair matching, must-call / must-not-call composition tables, loop-shape matching, typed truthiness lint",
@@ -112,6 +115,9 @@ def _etype(call):
 
 def run(ctx):
     chk, repo = ctx.chk, ctx.repo
+    from .common import check_late_binding
+
+    check_late_binding(ctx, "R16.j", ("job_shop_lib.graphs",), "the graph")
     from .common import check_loop_variable_leaks
 
     check_loop_variable_leaks(ctx, "R16.i", ("job_shop_lib.graphs",), "the graph")
@@ -271,7 +277,7 @@ def run(ctx):
         chk.violation("R16.b", sg, arc, f"machine-order arc typed `{_etype(arc)}`", loc=sg.loc(arc))
     else:
         chk.ok("R16.b", sg.qualname, sg.loc(arc), "machine-order arcs typed DISJUNCTIVE")
-    _solved_pairs(ctx, sg, arc)
+    ctx.attempt(_solved_pairs, ctx, sg, arc)
 
     # ---------------------------------------------------------------- R16.c
     for bname, (must, mustnot) in COMPOSITION.items():
@@ -344,10 +350,10 @@ def run(ctx):
             chk.ok("R16.c", f.qualname, f.loc(), f"calls {names}")
 
     # ---------------------------------------------------------------- R16.d
-    _node_ids(ctx)
+    ctx.attempt(_node_ids, ctx)
 
     # ---------------------------------------------------------------- R16.e
-    _enumeration(ctx, fn)
+    ctx.attempt(_enumeration, ctx, fn)
 
     # ---------------------------------------------------------------- R16.f
     n_t = falsy_id_tests(ctx, "R16.f", lambda fi: fi.module.name.startswith("job_shop_lib.graphs"))
